@@ -114,7 +114,7 @@ m = {
            "baseline_off_cmd": "cd /repo && go test -vet=off -count=1 ./...", "source_commits": [], "add_only": True},
  "engines": [{"name": "rsa", "path": "sa/", "serves_properties": sorted(claimed), "kind_free_text": "repository-specific static analyser over go/types + go/ssa (x/tools v0.29.0, vendored): path-sensitive abstract simulation with typestate (pathsim/fsproto), decision tables, effect and layout analyses"}],
  "checks": checks,
- "notes": "Static analysis only (DESIGN.md). Exit 0 = all obligations discharged on the current /repo tree; exit 1 + VIOLATION lines = a rule broken on a witnessed path, an undischarged obligation, or (rule UNDECIDED) an anchor / instance floor the analysis can no longer resolve on this tree; exit 2 = the tree does not load or type-check. The thorough tier adds mutation sensitivity (every seeded change stored for the property is applied to a scratch copy of the current tree and must be reported) and, for the file-protocol properties, an advisory run under the I/O-fault model. known_findings.json lists repaired defects (fix: commits in /repo) and recorded findings.",
+ "notes": "Static analysis only (DESIGN.md). Exit 0 = all obligations discharged on the current /repo tree; exit 1 + VIOLATION lines = a rule broken on a witnessed path, an undischarged obligation, or (rule UNDECIDED) an anchor / instance floor the analysis can no longer resolve on this tree; exit 2 = the tree does not load or type-check. The thorough tier adds, on scratch copies of the current tree analysed by the same static analysis: mutation sensitivity (every seeded change stored for the property must be reported: SELFTEST-MISS otherwise), fix regression (every recorded fix: commit of the property is reverse-applied and must be reported again: REGRESSION-MISS otherwise), refactor silence (the behaviour-preserving refactorings stored for the property must leave it silent: REFACTOR-ALARM otherwise) and, for the file-protocol properties, an advisory run under the I/O-fault model; none of these lines changes the exit code. known_findings.json lists repaired defects (fix: commits in /repo) and recorded findings (KNOWN-FINDING lines, exit 0). A simulation that exceeds its budget (state size, steps) ends with rule UNDECIDED instead of running on.",
  "not_applicable": na,
 }
 json.dump(m, open(os.path.join(V, 'MANIFEST.json'), 'w'), indent=1)
